@@ -335,7 +335,8 @@ def install_lossless_monitor():
                     if "".join(tokens.create(ln)) != ln:
                         bad = "join(tokenize(s)) != s at line %d: %r" % (i + 1, ln[:120])
                         break
-                if bad is None:
+                forced = bool(getattr(getattr(self, "commandLineArguments", None), "force_fix", False))
+                if bad is None and not forced:  # --force_fix goes on with a file that did not parse
                     for o in self.lAllObjects:
                         if type(o) is parser.item:
                             bad = "unclassified token %r" % (o.get_value()[:40],)
